@@ -27,6 +27,7 @@
 #include "xbt/log.h"
 
 #include <atomic>
+#include <functional>
 #include <map>
 #include <mutex>
 #include <nlohmann/json.hpp>
@@ -269,6 +270,35 @@ static bool has_handle(int h)
 }
 
 static void run_actor(const std::string& name, const json* spec);
+
+/* Extension points, so that several people can add operations and records without editing this file: a header
+ * drivers/s4u_ext_<tag>.hpp (tags: comm, time, model, fault, wf, misc, mc; included at the end of this file when present)
+ * registers, from a static initialiser,
+ *   - operations: bool f(Ctx&, int op_index, const json& op, json& result)  (return false when the op name is not yours;
+ *     exceptions propagate to the interpreter, which logs them as the outcome of the operation)
+ *   - set-up functions, run once after the platform and the objects exist and before the actors are created (connect
+ *     signals there; use emit() to print records). */
+struct Ctx;
+using ExtOp = std::function<bool(Ctx&, int, const json&, json&)>;
+static std::vector<ExtOp>& ext_ops()
+{
+  static std::vector<ExtOp> v;
+  return v;
+}
+static std::vector<std::function<void()>>& ext_setups()
+{
+  static std::vector<std::function<void()>> v;
+  return v;
+}
+struct ExtRegister {
+  ExtRegister(ExtOp op, std::function<void()> setup = nullptr)
+  {
+    if (op)
+      ext_ops().push_back(op);
+    if (setup)
+      ext_setups().push_back(setup);
+  }
+};
 
 static sg4::ActorPtr start_actor(const std::string& name, sg4::Host* host, const json* spec)
 {
@@ -806,6 +836,12 @@ static json do_op(Ctx& c, int idx, const json& op)
     MC_assert(c.obs->size() <= static_cast<size_t>(I(1)) || (*c.obs)[I(1)] == op[2]);
     return nullptr;
   }
+  /* ---- operations added by extension headers (drivers/s4u_ext_<tag>.hpp) */
+  for (auto const& f : ext_ops()) {
+    json r;
+    if (f(c, idx, op, r))
+      return r;
+  }
   fprintf(stderr, "unknown op %s\n", o.c_str());
   fflush(stdout);
   _exit(64);
@@ -1077,8 +1113,32 @@ static void setup(sg4::Engine& e, const json& sc, bool mc_mode)
   for (int i = 0; i < ob.value("mqueue", 0); i++)
     S->mqueues.push_back(sg4::MessageQueue::by_name("mq" + std::to_string(i)));
   connect_signals();
+  for (auto const& f : ext_setups())
+    f();
   for (auto const& a : S->scenario["actors"])
     start_actor(a["name"].get<std::string>(), host_by(a["host"]), &a);
 }
 
 } // namespace vf
+
+#if __has_include("s4u_ext_comm.hpp")
+#include "s4u_ext_comm.hpp"
+#endif
+#if __has_include("s4u_ext_time.hpp")
+#include "s4u_ext_time.hpp"
+#endif
+#if __has_include("s4u_ext_model.hpp")
+#include "s4u_ext_model.hpp"
+#endif
+#if __has_include("s4u_ext_fault.hpp")
+#include "s4u_ext_fault.hpp"
+#endif
+#if __has_include("s4u_ext_wf.hpp")
+#include "s4u_ext_wf.hpp"
+#endif
+#if __has_include("s4u_ext_misc.hpp")
+#include "s4u_ext_misc.hpp"
+#endif
+#if __has_include("s4u_ext_mc.hpp")
+#include "s4u_ext_mc.hpp"
+#endif
